@@ -1,7 +1,64 @@
-(* C02 — pipeline placeholder; replaced by the real statements *)
-From Gdsl.Model Require Import Base NodeOps.
-From Gdsl.Proofs Require Import NodeLemmas.
+(* C02 — Undirected adjacency is symmetric.
+   Model: coq/model/NodeOps.v (step_u/run_u): an undirected edge created by u.connect(v,e) is an outbound
+   half (v,e) at u and an inbound half (u,e) at v; Node::iter() yields adj_u h u = outs h u ++ ins h u. *)
+From Gdsl.Model Require Import Spec.
+From Gdsl.Proofs Require Import NodeU Glue.
 
-Theorem C02_placeholder_to_nil : forall (E : Type) v, to_ v (@nil (nat * E)) = [].
-Proof. exact to_nil. Qed.
-Print Assumptions C02_placeholder_to_nil.
+Theorem c02_history_invariant :
+  forall (K V E : Type) (keqb : K -> K -> bool), KeqbSpec keqb ->
+  forall ops : list (op K V E), KeysFresh ops ->
+    Inv (fst (run_u keqb ops)) /\ NoPanic (snd (run_u keqb ops)).
+Proof. exact run_u_inv. Qed.
+Print Assumptions c02_history_invariant.
+
+Theorem c02_every_prefix :
+  forall (K V E : Type) (keqb : K -> K -> bool), KeqbSpec keqb ->
+  forall a b : list (op K V E), KeysFresh (a ++ b) ->
+    Inv (fst (run_u keqb a)) /\ NoPanic (snd (run_u keqb a)).
+Proof. exact run_u_prefix_inv. Qed.
+Print Assumptions c02_every_prefix.
+
+(* u lists an edge to v with value e exactly as many times as v lists an edge to u with value e:
+   the two value lists are permutations of each other (equal as multisets) *)
+Theorem c02_symmetric_after_any_history :
+  forall (K V E : Type) (keqb : K -> K -> bool), KeqbSpec keqb ->
+  forall ops : list (op K V E), KeysFresh ops -> forall u v : nat,
+    Permutation (to_ v (adj_u (fst (run_u keqb ops)) u)) (to_ u (adj_u (fst (run_u keqb ops)) v)).
+Proof. exact run_u_symmetric. Qed.
+Print Assumptions c02_symmetric_after_any_history.
+
+Theorem c02_symmetric :
+  forall (K V E : Type) (h : heap K V E), Mirror h -> forall u v : nat,
+    Permutation (to_ v (adj_u h u)) (to_ u (adj_u h v)).
+Proof. exact adj_symmetric. Qed.
+Print Assumptions c02_symmetric.
+
+(* is_connected gives the same answer from both ends; degree counts every incident half-edge
+   (a self-loop has one outbound and one inbound half at the same node: twice) *)
+Theorem c02_both_ends :
+  forall (K V E : Type) (keqb : K -> K -> bool), KeqbSpec keqb ->
+  forall h : heap K V E, Inv h -> forall (u v : nat) (kv ku : K),
+    keyof h u = Some ku -> keyof h v = Some kv ->
+    is_connected_u keqb h u kv = is_connected_u keqb h v ku /\
+    degree_u h u = length (outs h u) + length (ins h u).
+Proof. exact degree_u_facts. Qed.
+Print Assumptions c02_both_ends.
+
+Theorem c02_is_connected :
+  forall (K V E : Type) (keqb : K -> K -> bool), KeqbSpec keqb ->
+  forall (h : heap K V E) (u v : nat) (kv : K), Inv h -> u < size h -> keyof h v = Some kv ->
+    (is_connected_u keqb h u kv = true <-> exists e : E, In (v, e) (adj_u h u)).
+Proof. exact is_connected_u_spec. Qed.
+Print Assumptions c02_is_connected.
+
+Example c02_nonvacuous :
+  let ops : list (op nat nat nat) :=
+    [ONew 5 0; ONew 3 0; OConnect 0 1 10; OConnect 1 0 11; OConnect 0 0 12; ODisconnect 1 5; OTryConnect 1 0 13] in
+  NoDup (new_keys ops) /\
+  adj_u (fst (run_u Nat.eqb ops)) 0 = [(0, 12); (1, 11); (0, 12)] /\ adj_u (fst (run_u Nat.eqb ops)) 1 = [(0, 11)] /\
+  degree_u (fst (run_u Nat.eqb ops)) 0 = 3 /\
+  snd (run_u Nat.eqb ops) = [OkU; OkU; OkU; OkU; OkU; OkE 10; ErrExists].
+Proof.
+  cbv zeta. split; [|vm_compute; auto].
+  repeat constructor; cbn; intuition congruence.
+Qed.
